@@ -9,6 +9,9 @@
 //   abs|sqrt|round <n> a…       -> v <k> bits…
 //   combine <n> a… <m> b…       -> v <k> bits…
 //   dist <n> a… <m> b…          -> s bits        | fault
+//   aeq <n> a… <m> b… e         -> r <0|1>       | fault   (f2 shorter: Expects(i < size()))
+//   isfinite|isnan|issmall|isnonneg <n> a…   -> r <0|1>
+//   show <n> a…                 -> t <what operator<< writes>
 // NaN results are printed as `nan`.
 #include "common/verif.h"
 
@@ -16,6 +19,7 @@
 #include "kernel/model_measurements.h"
 
 #include <cmath>
+#include <sstream>
 
 namespace
 {
@@ -108,6 +112,27 @@ int main()
     {
       if (!take(t, pos, a) || pos != t.size()) { std::cout << "bad-op\n"; continue; }
       std::cout << show(cmd == "abs" ? vita::abs(a) : cmd == "sqrt" ? vita::sqrt(a) : vita::round_to(a)) << "\n";
+    }
+    else if (cmd == "aeq")
+    {
+      if (!take(t, pos, a) || !take(t, pos, b) || pos + 1 != t.size()) { std::cout << "bad-op\n"; continue; }
+      const double e = verif::from_bits(std::stoull(t[pos]));
+      if (b.size() < a.size()) { std::cout << "fault\n"; continue; }   // the contract of operator[]
+      std::cout << "r " << (vita::almost_equal(a, b, e) ? '1' : '0') << "\n";
+    }
+    else if (cmd == "isfinite" || cmd == "isnan" || cmd == "issmall" || cmd == "isnonneg")
+    {
+      if (!take(t, pos, a) || pos != t.size()) { std::cout << "bad-op\n"; continue; }
+      const bool r = cmd == "isfinite" ? vita::isfinite(a) : cmd == "isnan" ? vita::isnan(a)
+                     : cmd == "issmall" ? vita::issmall(a) : vita::isnonnegative(a);
+      std::cout << "r " << (r ? '1' : '0') << "\n";
+    }
+    else if (cmd == "show")
+    {
+      if (!take(t, pos, a) || pos != t.size()) { std::cout << "bad-op\n"; continue; }
+      std::ostringstream ss;
+      ss << a;
+      std::cout << "t " << ss.str() << "\n";
     }
     else
       std::cout << "bad-op\n";
